@@ -395,7 +395,7 @@ Proof.
     - repeat split; try reflexivity; apply okstr_nil.
     - set (m := kv :: m') in *. unfold wf_wtags in Htags.
       apply Bool.andb_true_iff in Htags. destruct Htags as [Hall Hfit].
-      assert (Hfit' : (length (tag_section m) <= max_tag_length)%nat) by lia.
+      assert (Hfit' : (length (tag_section m) <= max_tag_length)%nat) by (apply Nat.leb_le; exact Hfit).
       destruct (tag_list_ok m ltac:(discriminate) Hall) as [Hok Hstr].
       assert (HW : tags_write (Some m) = tag_section m ++ [32]).
       { unfold tags_write, tags_bytes. rewrite tagmap_bytes_section by (try discriminate; exact Hfit').
@@ -403,7 +403,7 @@ Proof.
       split; [|split; [|split]].
       + transitivity (tag_section m ++ [32]); [exact HW|]. rewrite tag_section_text. unfold line_tags, tags_part, m. reflexivity.
       + exact Hok.
-      + assert (HW' : okstr (tag_section m ++ [32])); [|destruct HW' as [HW1 HW2]; split; [rewrite <- HW1|rewrite <- HW2]; f_equal; exact HW].
+      + refine (@eq_ind_r _ _ okstr _ _ HW).
         rewrite tag_section_text. cbn [app]. apply okstr_cons; [reflexivity|reflexivity|].
         apply okstr_app; [exact Hstr|apply okstr_cons; [reflexivity|reflexivity|apply okstr_nil]].
       + unfold line_tags, m. cbn [option_map]. split.
@@ -438,13 +438,13 @@ Proof.
   assert (Hlen : (2 <= length (event_raw_bytes e))%nat).
   { unfold event_raw_bytes. rewrite !app_length. unfold min_line in Hmin.
     repeat (apply Bool.orb_true_iff in Hmin; destruct Hmin as [Hmin|Hmin]).
-    - lia.
+    - apply Nat.leb_le in Hmin. clear - Hmin. lia.
     - destruct (we_cmd e) as [|c0 c']; [discriminate|]. destruct (we_params e) as [|p r]; [discriminate|].
-      assert (1 <= length (params_bytes (p :: r)))%nat by (destruct r; cbn [params_bytes length]; lia).
-      cbn [length] in *. lia.
+      assert (Hpb : (1 <= length (params_bytes (p :: r)))%nat) by (clear; destruct r; cbn [params_bytes length]; lia).
+      cbn [length]. clear - Hpb. lia.
     - destruct (we_cmd e) as [|c0 c']; [discriminate|]. destruct (we_src e); [|discriminate]. cbn [length]. clear. lia.
     - destruct (we_cmd e) as [|c0 c']; [discriminate|].
-      destruct (we_tags e) as [[|kv m']|]; try discriminate. rewrite HT1. cbn [line_tags tags_part length]. lia. }
+      destruct (we_tags e) as [[|kv m']|]; try discriminate. rewrite HT1. cbn [line_tags tags_part length]. clear. lia. }
   unfold event_bytes. rewrite okstr_fixed by exact Hstr.
   rewrite parse_event_is_nf. rewrite <- (app_nil_r (event_raw_bytes e)). rewrite Hraw.
   rewrite parse_line; try assumption.
